@@ -94,6 +94,7 @@ func drawVariant(r *rand.Rand) variant {
 // item is a harvested value with what it is bound to.
 type item struct {
 	Val, Client, Redirect, Verifier, Host string
+	Challenge, Method                     string // PKCE challenge the code was bound to ("" = none)
 }
 
 type world struct {
@@ -437,15 +438,16 @@ func (x *world) mintCode(c *vclient.Client, scope, respType string, login bool, 
 	p := plist{{k: "client_id", v: c.ID}, {k: "redirect_uri", v: redirect}, {k: "response_type", v: respType}, {k: "scope", v: scope},
 		{k: "state", v: fmt.Sprintf("st-%d", x.r.IntN(1000))}, {k: "nonce", v: fmt.Sprintf("n-%d", x.r.IntN(1000))}}
 	verifier := ""
-	if c.Auth == oidc.AuthMethodNone || chance(x.r, 1, 4) {
+	challenge, chMethod := "", ""
+	if c.Auth == oidc.AuthMethodNone || chance(x.r, 1, 2) {
 		verifier = fmt.Sprintf("verifier-%06d-0123456789-0123456789-0123456789", x.r.IntN(1e6))
-		if x.v.S256 || chance(x.r, 1, 2) {
-			p.add("code_challenge", opdrv.S256(verifier))
-			p.add("code_challenge_method", "S256")
+		if (x.v.S256 && chance(x.r, 2, 3)) || (!x.v.S256 && chance(x.r, 1, 4)) {
+			challenge, chMethod = opdrv.S256(verifier), "S256"
 		} else {
-			p.add("code_challenge", verifier)
-			p.add("code_challenge_method", "plain")
+			challenge, chMethod = verifier, "plain"
 		}
+		p.add("code_challenge", challenge)
+		p.add("code_challenge_method", chMethod)
 	}
 	if mode != "" {
 		p.add("response_mode", mode)
@@ -467,7 +469,7 @@ func (x *world) mintCode(c *vclient.Client, scope, respType string, login bool, 
 	resp = x.exec(q, router)
 	ar := opdrv.DecodeAuthResponse(resp)
 	if v := ar.Params.Get("code"); v != "" {
-		code = item{Val: v, Client: c.ID, Redirect: redirect, Verifier: verifier, Host: x.host}
+		code = item{Val: v, Client: c.ID, Redirect: redirect, Verifier: verifier, Host: x.host, Challenge: challenge, Method: chMethod}
 		x.put("code", code)
 	}
 	if v := ar.Params.Get("id_token"); v != "" {
